@@ -717,8 +717,11 @@ func run(c *core.Ctx) {
 		bound = 3
 	}
 	n := core.NumWorkers()
-	for si := range scens() {
-		for b := 0; b <= bound; b++ {
+	// bound-major: every scenario is finished at bound b before any starts bound b+1, so a time cap
+	// only ever cuts the deepest bound
+	completed := -1
+	for b := 0; b <= bound && !c.Expired(); b++ {
+		for si := range scens() {
 			shards := n
 			if b < 2 {
 				shards = 1
@@ -728,7 +731,11 @@ func run(c *core.Ctx) {
 			}, 20*time.Minute)
 			c.CheckShards(outs)
 		}
+		if !c.Expired() {
+			completed = b
+		}
 	}
+	bound = completed
 	c.Set("preemption_bound_completed", bound)
 	c.Set("history_depth", depth)
 	for _, sc := range scens() {
